@@ -5,7 +5,6 @@ import (
 	"encoding/json"
 	"fmt"
 	"math/big"
-	"os"
 	"regexp"
 	"sort"
 	"strings"
@@ -605,7 +604,7 @@ func c13Revolut2() *c13Importer {
 func c13Wise() *c13Importer {
 	acct := "Assets:Bank"
 	return &c13Importer{
-		Name: "com.wise", Account: acct, File: "s.csv", Vars: []string{""}, Curs3: 1,
+		Name: "com.wise", Account: acct, File: "s.csv", Vars: []string{""}, Curs3: 2,
 		Args: func(string) []string {
 			return []string{"--account", acct, "--fee", "Expenses:Fees", "--trading", "Expenses:Trading"}
 		},
@@ -1152,10 +1151,10 @@ func c13Dimensions(imp *c13Importer, reduced bool) c13Dims {
 	}
 	d := c13Dims{Dates: []string{c13D1, c13D2}, Amts: []string{"0.50", "12.34", "1'234.56"}, Curs: []string{"CHF", "EUR"}, Texts: texts, Few: texts[:2]}
 	if reduced {
-		// three-row statements (thorough tier): the hostile texts only, two amounts
+		// three-row statements (thorough tier): the hostile texts only (quote, Unicode,
+		// empty), one text for secondary kinds
 		d.Texts = []string{texts[1], texts[4], texts[5]}
 		d.Few = texts[1:2]
-		d.Amts = []string{"0.50", "1'234.56"}
 		if imp.Curs3 < 2 {
 			d.Curs = d.Curs[:1]
 		}
@@ -1190,9 +1189,6 @@ func c13Run(e *core.Env) {
 					cs := c13Build(imp, v, rows)
 					fs, out, runs := c13One(drv, cs)
 					e.Count("evaluations")
-					if os.Getenv("C13_DUMP") != "" && len(rows) == 2 && e.CaseNo()%2377 == 0 {
-						fmt.Fprintf(os.Stderr, "=== %s %v\n%s\n--- exit %d\n%s--- wants %v %v findings %d\n", imp.Name, cs.Args, c13Show(cs.content()), out.Exit, out.Stdout, cs.RowWants, cs.StmtWants, len(fs))
-					}
 					e.Add("command_runs", runs)
 					e.Count("statements_" + imp.Name)
 					if len(rows) >= 2 {
@@ -1270,7 +1266,7 @@ func init() {
 		ID: "C13", Level: "model_checking", Run: c13Run, Replay: c13Replay,
 		QuickBudget: 100 * time.Second, ThoroughBudget: 14 * time.Minute,
 		Rule: "for each of the 11 importers every statement of <= N rows (N = 2 quick, 3 thorough; viac one more) over the importer's row alphabet = {2 dates incl. same day} x {every booking kind/sign of the importer, incl. non-booking rows} x {0.50, 12.34, 1'234.56 in the format's separator style} x {CHF, EUR where the format carries a currency} x {abc, a \"quoted\" b, semi;colon, comma, x, Zürich — ☕, empty} (CSV-quoted per dialect; BOM / Latin-1 / JSON as the format requires); " +
-			"three-row statements use the hostile texts and two amounts; real importer in-process: exit 0, stdout parses with knut's parser, opened output passes check and print reproduces it byte for byte, multiset of (transaction date + net effect on the import account per commodity, assertions, prices) equals the grammar's expectation; non-trivial = two or more rows",
+			"three-row statements use the texts {quoted, Unicode, empty} (one currency for swissquote and interactivebrokers); real importer in-process: exit 0, stdout parses with knut's parser, opened output passes check and print reproduces it byte for byte, multiset of (transaction date + net effect on the import account per commodity, assertions, prices) equals the grammar's expectation; non-trivial = two or more rows",
 		Assumptions: []string{
 			"statement grammars are transcribed from each importer's field table and golden input; shapes outside them are not covered",
 			"revolut/revolut2/interactivebrokers statements carry balances consistent with their rows (computed from a zero opening balance) and rows are ordered as the format orders them",
